@@ -31,11 +31,13 @@ THEOREMS = [
     'CC.C18_display_ranges', 'CC.C18_display_args', 'CC.C18_defaults',
     'CC.C18_real_counterexample', 'CC.C18_rounds_up_to_one_text', 'CC.C18_complex_suppression_counterexample',
     'CC.C18_zero_displayed_as_infinity', 'CC.C18_exponent_decade_partial', 'CC.C18_accuracy_positional',
+    'CC.C18_exponent_decade_small', 'CC.C18_exponent_decade_domain', 'CC.C18_accuracy_domain',
+    'CC.C18_mantissa_range_domain', 'CC.C18_saturate_domain',
 ]
 OPEN_STATEMENTS = [
-    'CC.C18_exponent_decade_statement (the exponent stage delivers the decade; proved for 1e-4 <= |v| < 1e16 as '
-    'C18_exponent_decade_partial, open where repr uses exponent notation; kernels C18_accuracy / C18_saturate / '
-    'C18_mantissa_sign / C18_suppressed_small are proved under it)',
+    'CC.C18_exponent_decade_statement for |v| >= 1e16 only (outside the property domain 1e-15..1e15): the exponent stage '
+    'is proved for every rational 0 < |v| < 1e16 (CC.C18_exponent_decade_domain), hence accuracy, mantissa range and '
+    'saturation hold unconditionally there (C18_accuracy_domain, C18_mantissa_range_domain, C18_saturate_domain)',
     'CC.C18_render_statement (parseBack ∘ ScientificFloat.__str__ = mantissa3 · 10^exponent3)',
     'CC.C18_real_partial_statement (text-level C18 outside the rounds-up-to-one region)',
     'CC.C18_real_statement is FALSE for the current code: CC.C18_real_counterexample',
